@@ -16,6 +16,8 @@ import (
 	"go.opentelemetry.io/collector/consumer"
 	"go.opentelemetry.io/collector/pdata/pcommon"
 	"go.opentelemetry.io/collector/pdata/plog"
+	"go.opentelemetry.io/collector/pdata/pmetric"
+	"go.opentelemetry.io/collector/pdata/ptrace"
 	"go.opentelemetry.io/collector/processor/batchprocessor/internal/metadata"
 	"go.opentelemetry.io/collector/processor/processortest"
 )
@@ -28,8 +30,12 @@ type vcSink struct {
 
 func (s *vcSink) Capabilities() consumer.Capabilities { return consumer.Capabilities{} }
 
-func (s *vcSink) ConsumeLogs(ctx context.Context, ld plog.Logs) error {
-	vs := client.FromContext(ctx).Metadata.Get("tenant")
+// record: one line per batch; every item is printed as timestamp*100 + the int attribute "k" of ITS resource, so an item that
+// reaches the sink under another resource (or without it) is a different token. The export context must carry nothing but the
+// group's values (no Auth, no Addr, no other metadata key).
+func (s *vcSink) record(ctx context.Context, toks []string) {
+	info := client.FromContext(ctx)
+	vs := info.Metadata.Get("tenant")
 	key := "-"
 	if len(vs) > 0 {
 		key = strings.Join(vs, ".")
@@ -37,19 +43,73 @@ func (s *vcSink) ConsumeLogs(ctx context.Context, ld plog.Logs) error {
 			key = "<empty>" // the empty value is a group of its own, different from an absent header
 		}
 	}
+	foreign := info.Auth != nil || info.Addr != nil
+	for k := range info.Metadata.Keys() {
+		if !strings.EqualFold(k, "tenant") {
+			foreign = true
+		}
+	}
+	s.mu.Lock()
+	defer s.mu.Unlock()
+	s.lines = append(s.lines, fmt.Sprintf("tr emit k=%s ids=%s", key, strings.Join(toks, ",")))
+	if foreign {
+		s.lines = append(s.lines, "viol sig=C17/proc/export-context-carries-foreign-client-info (concurrent producers)")
+	}
+}
+
+func vTok(ts pcommon.Timestamp, attrs pcommon.Map) string {
+	k := 0
+	if v, ok := attrs.Get("k"); ok {
+		k = int(v.Int())
+	}
+	return fmt.Sprint(int(ts)*100 + k)
+}
+
+func (s *vcSink) ConsumeLogs(ctx context.Context, ld plog.Logs) error {
 	var ids []string
 	for i := 0; i < ld.ResourceLogs().Len(); i++ {
 		rl := ld.ResourceLogs().At(i)
 		for j := 0; j < rl.ScopeLogs().Len(); j++ {
 			sl := rl.ScopeLogs().At(j)
 			for k := 0; k < sl.LogRecords().Len(); k++ {
-				ids = append(ids, fmt.Sprint(int(sl.LogRecords().At(k).Timestamp())))
+				ids = append(ids, vTok(sl.LogRecords().At(k).Timestamp(), rl.Resource().Attributes()))
 			}
 		}
 	}
-	s.mu.Lock()
-	defer s.mu.Unlock()
-	s.lines = append(s.lines, fmt.Sprintf("tr emit k=%s ids=%s", key, strings.Join(ids, ",")))
+	s.record(ctx, ids)
+	return nil
+}
+
+func (s *vcSink) ConsumeTraces(ctx context.Context, td ptrace.Traces) error {
+	var ids []string
+	for i := 0; i < td.ResourceSpans().Len(); i++ {
+		rs := td.ResourceSpans().At(i)
+		for j := 0; j < rs.ScopeSpans().Len(); j++ {
+			ss := rs.ScopeSpans().At(j)
+			for k := 0; k < ss.Spans().Len(); k++ {
+				ids = append(ids, vTok(ss.Spans().At(k).StartTimestamp(), rs.Resource().Attributes()))
+			}
+		}
+	}
+	s.record(ctx, ids)
+	return nil
+}
+
+func (s *vcSink) ConsumeMetrics(ctx context.Context, md pmetric.Metrics) error {
+	var ids []string
+	for i := 0; i < md.ResourceMetrics().Len(); i++ {
+		rm := md.ResourceMetrics().At(i)
+		for j := 0; j < rm.ScopeMetrics().Len(); j++ {
+			sm := rm.ScopeMetrics().At(j)
+			for k := 0; k < sm.Metrics().Len(); k++ {
+				dps := sm.Metrics().At(k).Gauge().DataPoints()
+				for p := 0; p < dps.Len(); p++ {
+					ids = append(ids, vTok(dps.At(p).Timestamp(), rm.Resource().Attributes()))
+				}
+			}
+		}
+	}
+	s.record(ctx, ids)
 	return nil
 }
 
@@ -99,9 +159,9 @@ func TestVerifC17Cardinality(t *testing.T) {
 		rec := func(val, id int, err error) {
 			if err == nil {
 				groups[val] = true
-				log = append(log, fmt.Sprintf("tr accept k=v%d id=%d", val, id))
+				log = append(log, fmt.Sprintf("tr accept k=v%d id=%d", val, id*100))
 			} else {
-				log = append(log, fmt.Sprintf("tr refuse k=v%d id=%d", val, id))
+				log = append(log, fmt.Sprintf("tr refuse k=v%d id=%d", val, id*100))
 			}
 		}
 		for g := 0; g < pre; g++ {
